@@ -178,3 +178,180 @@ def trace_tlc(steps_file, mon, fee, pct, exclude="", timeout=1800, invs=None, ju
     r = vlib.tlc("TracePayments", cfg, env=env, workers=1, timeout=timeout, name="trace-payments", heap="12g")
     r["report"] = json.load(open(report))
     return r
+
+
+# ------------------------------------------------------------------------------------------
+# concurrency leg (C20 atomicity at the payment ledger; concurrent overpayment for C06)
+
+_NO_RACE = ("Restart", "Tick", "SignCpRetry", "ValidateHolderRetry")
+
+
+def _o(h, a):
+    return {"d": "o", "h": h, "a": a}
+
+
+def _r(h, a):
+    return {"d": "r", "h": h, "a": a}
+
+
+def _hand_cases():
+    """racing pairs on the 'pay' and 'route' alphabets: two channels, one payment hash"""
+    ch2, h1 = ["c1", "c2"], ["h1"]
+    inv1 = {"op": "AddInvoice", "h": "h1", "a": 1}
+    inv2 = {"op": "AddInvoice", "h": "h1", "a": 2}
+
+    def sc(c, x):
+        return {"op": "SignCp", "ch": c, "c": x}
+
+    def vh(c, x):
+        return {"op": "ValidateHolder", "ch": c, "c": x}
+
+    def rv(c):
+        return {"op": "Revoke", "ch": c}
+    o1, o2, r1 = [_o("h1", 1)], [_o("h1", 2)], [_r("h1", 1)]
+    L = [
+        ([inv1], sc("c1", o1), sc("c2", o1)),                     # both pay the whole invoice
+        ([inv2], sc("c1", o1), sc("c2", o2)),                     # parts exceeding the invoice
+        ([inv2], sc("c1", o1), sc("c2", o1)),                     # parts that fit: both must succeed
+        ([], inv1, sc("c1", o1)),                                 # approval racing the payment
+        ([inv1, vh("c1", o1)], rv("c1"), sc("c2", o1)),           # revocation racing a payment elsewhere
+        ([inv1, sc("c1", o1)], {"op": "Fulfill", "h": "h1"}, sc("c2", o1)),
+        ([inv1, sc("c1", o1)], {"op": "Heartbeat"}, sc("c2", o1)),
+        ([inv1], sc("c1", o1), vh("c2", o1)),
+        ([inv1], vh("c1", o1), vh("c2", o1)),
+        ([inv1], sc("c1", o1), vh("c1", o1)),                     # same channel, both sides
+        ([inv1, vh("c1", o1)], rv("c1"), sc("c1", o1)),
+        ([inv1, sc("c1", o1), vh("c1", o1), rv("c1")], sc("c1", []), sc("c2", o1)),   # removal racing a retry elsewhere
+        # route: incoming on c1 covers outgoing on c2
+        ([sc("c1", r1), vh("c1", r1), rv("c1")], sc("c2", o1), sc("c1", [])),         # forward racing the removal
+        ([vh("c1", r1), rv("c1")], sc("c1", r1), sc("c2", o1)),   # forward racing the incoming becoming irrevocable
+        ([sc("c1", r1), vh("c1", r1), rv("c1"), sc("c2", o1)], vh("c1", []), inv1),
+        ([], sc("c1", o1), sc("c2", o1)),                         # unbacked on both
+    ]
+    return [{"chans": ch2, "hashes": h1, "prefix": p, "a": a, "b": b, "src": "hand"} for p, a, b in L]
+
+
+def _sim_cases(num, depth, seed, want, d):
+    """consecutive request pairs of TLC-simulated behaviours of Payments.tla as (prefix, a, b)"""
+    seqs, _ = simulate("sim2", 0, 10, num, depth, seed, d)
+    scored = []
+    for sq in seqs:
+        reqs = sq["reqs"]
+        for i in range(len(reqs) - 1):
+            a, b = reqs[i], reqs[i + 1]
+            if a["op"] in _NO_RACE or b["op"] in _NO_RACE:
+                continue
+            ca, cb = a.get("ch"), b.get("ch")
+            if ca and cb and ca == cb and a["op"] == b["op"] == "SignCp":
+                continue
+            ha = set(x["h"] for x in a.get("c", [])) | ({a["h"]} if "h" in a else set())
+            hb = set(x["h"] for x in b.get("c", [])) | ({b["h"]} if "h" in b else set())
+            score = (2 if (ca and cb and ca != cb) else 1 if (ca or cb) else 0) + (2 if ha & hb else 0)
+            scored.append((-score, len(scored), {"chans": sq["chans"], "hashes": sq["hashes"], "prefix": reqs[:i],
+                                                 "a": a, "b": b, "src": "sim"}))
+    scored.sort(key=lambda t: (t[0], t[1]))
+    return [c for _, _, c in scored[:want]]
+
+
+def conc_component(tier):
+    """-> (violations, coverage, number of concurrent runs).  Keys: pay-nonlinearizable:<opA>||<opB>,
+    pay-stuck:<opA>||<opB>, C06a:concurrent:<opA>||<opB>, C06b:concurrent:<opA>||<opB>."""
+    from concurrent.futures import ThreadPoolExecutor
+    quick = tier == "quick"
+    t0 = time.time()
+    binpath = vlib.build("payments")
+    d = wd("conc")
+    cases = _hand_cases() + _sim_cases(20 if quick else 120, 40, vlib.seed(), 80 if quick else 600, d)
+    for i, c in enumerate(cases):
+        c["id"] = i
+    shards = 6 if quick else 8
+    files = []
+    for s in range(shards):
+        cf = os.path.join(d, "cases-%d.ndjson" % s)
+        with open(cf, "w") as f:
+            for c in cases[s::shards]:
+                f.write(json.dumps(c) + "\n")
+        files.append((cf, os.path.join(d, "runs-%d.ndjson" % s)))
+    with ThreadPoolExecutor(max_workers=shards) as ex:
+        stats = list(ex.map(lambda p: vlib.run_bin(binpath, ["conc", "--cases", p[0], "--out", p[1], "--fee", 0, "--pct", 10],
+                                                   timeout=3000), files))
+    runs_file = os.path.join(d, "runs.ndjson")
+    cases_file = os.path.join(d, "case-steps.ndjson")
+    with open(runs_file, "w") as fr, open(cases_file, "w") as fc:
+        for _, rf in files:
+            fr.write(open(rf).read())
+            fc.write(open(rf + ".cases").read())
+    report = os.path.join(d, "report.json")
+    vlib.tlc("ConcPayments", os.path.join(SPEC, "ConcPayments.cfg"),
+             env={"CP_RUNS": runs_file, "CP_CASES": cases_file, "CP_REPORT": report, "PM_FEE": 0, "PM_PCT": 10,
+                  "PM_REVOKE_VALIDATES": _bool(SWITCHES["revokeValidates"])},
+             workers=1, timeout=1800, name="conc-payments", heap="12g")
+    rep = json.load(open(report))
+    by_id = {c["id"]: c for c in cases}
+
+    def names(x):
+        return tuple(sorted([x["a"]["op"], x["b"]["op"]]))
+
+    def replay_of(x):
+        c = by_id[x["case"]]
+        return {"kind": "payments-conc", "chans": c["chans"], "hashes": c["hashes"], "prefix": c["prefix"], "a": c["a"],
+                "b": c["b"], "held": x["held"], "k": x["k"], "observed": {"ra": x["ra"], "rb": x["rb"], "post": x["post"]},
+                "sequential": {"ab": x["sab"], "ba": x["sba"]}}
+
+    def story(x):
+        c = by_id[x["case"]]
+        return "after %s: %s || %s (request %s held before its lock acquisition %d) -> replies %s / %s" % (
+            describe([{"req": r} for r in c["prefix"]]) or "(start)", _short(c["a"]), _short(c["b"]),
+            "ab"[x["held"]], x["k"], "ok" if x["ra"]["ok"] else "refused", "ok" if x["rb"]["ok"] else "refused")
+    viol = []
+    for x in rep["nonlinearizable"]:
+        viol.append({"key": "pay-nonlinearizable:%s||%s" % names(x),
+                     "what": "concurrent requests on one node produced replies + payment ledger that neither sequential "
+                             "order of the implementation explains: " + story(x), "replay": replay_of(x)})
+    for y in rep["overpaid"]:
+        x = y["run"]
+        viol.append({"key": "%s:concurrent:%s||%s" % ((y["clause"],) + names(x)),
+                     "what": "%s fails on the real node after two CONCURRENT accepted requests (each alone is fine): %s" % (
+                         y["clause"], story(x)), "replay": replay_of(x)})
+    for x in rep["stuck"]:
+        viol.append({"key": "pay-stuck:%s||%s" % names(x), "what": "concurrent requests never completed: " + story(x),
+                     "replay": replay_of(x)})
+    if any(s.get("stuck") for s in stats) and not rep["stuck"]:
+        raise vlib.ToolError("payments conc: a shard reported a stuck run that is not in the records")
+    if rep["interleaved"] == 0 or rep["both_accepted"] == 0:
+        raise vlib.ToolError("vacuous concurrency leg: no run interleaved / no run accepted both requests")
+    cov = {"atomicity_payment_ledger": {
+        "cases": len(cases), "hand_picked_cases": sum(1 for c in cases if c["src"] == "hand"),
+        "cases_from_simulated_behaviours": sum(1 for c in cases if c["src"] == "sim"),
+        "concurrent_runs": rep["runs"], "runs_where_the_other_request_ran_through_while_one_was_held": rep["interleaved"],
+        "runs_with_both_requests_accepted": rep["both_accepted"], "runs_where_the_sequential_order_matters": rep["order_matters"],
+        "nonlinearizable": rep["n_nonlinearizable"], "overpaid_only_concurrently": rep["n_overpaid"],
+        "stuck": len(rep["stuck"]), "spec_divergences": rep["n_spec_divergences"],
+        "spec_divergence_samples": rep["spec_divergences"][:3], "wall_s": round(time.time() - t0, 1)}}
+    log("[payments] concurrency leg: %d cases, %d concurrent runs in %.1fs; nonlinearizable %d, overpaid %d, spec divergences %d" % (
+        len(cases), rep["runs"], time.time() - t0, rep["n_nonlinearizable"], rep["n_overpaid"], rep["n_spec_divergences"]))
+    return viol, cov, rep["runs"]
+
+
+def conc_replay(pid, rp):
+    """re-run one recorded case of the concurrency leg (all schedules of the pair) and let TLC judge"""
+    binpath = vlib.build("payments")
+    d = wd("conc-replay")
+    cf = os.path.join(d, "cases.ndjson")
+    with open(cf, "w") as f:
+        f.write(json.dumps({"id": 0, "chans": rp["chans"], "hashes": rp["hashes"], "prefix": rp["prefix"], "a": rp["a"],
+                            "b": rp["b"]}) + "\n")
+    rf = os.path.join(d, "runs.ndjson")
+    vlib.run_bin(binpath, ["conc", "--cases", cf, "--out", rf, "--fee", 0, "--pct", 10], timeout=600)
+    report = os.path.join(d, "report.json")
+    vlib.tlc("ConcPayments", os.path.join(SPEC, "ConcPayments.cfg"),
+             env={"CP_RUNS": rf, "CP_CASES": rf + ".cases", "CP_REPORT": report, "PM_FEE": 0, "PM_PCT": 10,
+                  "PM_REVOKE_VALIDATES": _bool(SWITCHES["revokeValidates"])}, workers=1, timeout=600, name="conc-payments-replay")
+    rep = json.load(open(report))
+    print("  %s || %s: %d schedules, non-linearizable %d, overpaid only concurrently %d, stuck %d" % (
+        _short(rp["a"]), _short(rp["b"]), rep["runs"], rep["n_nonlinearizable"], rep["n_overpaid"], len(rep["stuck"])))
+    if rep["n_nonlinearizable"] or rep["n_overpaid"] or rep["stuck"]:
+        print("VIOLATION property=%s replay=(reproduced)" % pid)
+        return 1
+    print("not reproduced")
+    return 0
